@@ -192,10 +192,15 @@ impl Engine {
     pub fn run(&mut self, text: &str) -> Outcome {
         match self.run_raw(text) {
             Ok(Ok(outs)) => Outcome::Ok(outs.iter().filter_map(render_output).collect()),
-            Ok(Err(e)) => Outcome::Err {
-                kind: error_kind(&e),
-                msg: e.to_string(),
-            },
+            Ok(Err(e)) => {
+                if crate::VERBOSE.load(std::sync::atomic::Ordering::Relaxed) {
+                    eprintln!("ERR {text} :: {}", e.to_string().replace('\n', " | "));
+                }
+                Outcome::Err {
+                    kind: error_kind(&e),
+                    msg: e.to_string(),
+                }
+            }
             Err(p) => Outcome::Panic(p),
         }
     }
